@@ -18,9 +18,10 @@ import (
 
 type c13wCase struct {
 	Stack    StackCfg  `json:"stack"`
-	Order    []int     `json:"order"`      // 0 = A's Acquire, 1 = A's cancellation
-	BAfterMs int       `json:"b_after_ms"` // B arrives that long after A
-	BBoundMs int       `json:"b_bound_ms"` // blocking: B is cancelled that long after its arrival (deadline kind: the deadline bounds B)
+	Order    []int     `json:"order"`             // 0 = A's Acquire, 1 = A's cancellation
+	Release  bool      `json:"release,omitempty"` // the holder also releases at that instant (actor 2 in Order: hand-off races with A's give-up)
+	BAfterMs int       `json:"b_after_ms"`        // B arrives that long after A
+	BBoundMs int       `json:"b_bound_ms"`        // blocking: B is cancelled that long after its arrival (deadline kind: the deadline bounds B)
 	Yields   yieldList `json:"yields"`
 }
 
@@ -38,7 +39,12 @@ func genC13W(t *rapid.T) c13wCase {
 		c.Stack.Evict = true
 		c.Stack.Ordering = rapid.SampledFrom([]string{"fifo", "lifo"}).Draw(t, "ordering")
 	}
-	c.Order = rapid.Permutation([]int{0, 1}).Draw(t, "order")
+	c.Release = rapid.Bool().Draw(t, "release")
+	if c.Release {
+		c.Order = rapid.Permutation([]int{0, 1, 2}).Draw(t, "order")
+	} else {
+		c.Order = rapid.Permutation([]int{0, 1}).Draw(t, "order")
+	}
 	c.BAfterMs = rapid.SampledFrom([]int{0, 1, 5}).Draw(t, "bafter")
 	c.BBoundMs = rapid.SampledFrom([]int{1, 7, 20}).Draw(t, "bbound")
 	c.Yields = yieldList(rapid.SliceOfN(rapid.SampledFrom([]uint8{0, 0, 1, 1, 2, 3}), 0, 16).Draw(t, "yields"))
@@ -67,15 +73,36 @@ func runC13W(t *testing.T, c c13wCase) kit.Outcome {
 		a := w.newCaller("a", 0, 0)
 		sc.arm(true)
 		for _, x := range c.Order {
-			if x == 0 {
+			switch x {
+			case 0:
 				w.start(a)
-			} else {
+			case 1:
 				w.wg.Add(1)
 				go func() { defer w.wg.Done(); a.cancel() }()
+			case 2:
+				if c.Release {
+					w.mu.Lock()
+					holder.Released = true
+					w.mu.Unlock()
+					w.wg.Add(1)
+					go func() { defer w.wg.Done(); complete(holder.L, 0) }()
+				}
 			}
 		}
 		synctest.Wait()
 		sc.arm(false)
+		// whoever holds the token now keeps it; if it is free, a filler takes it so that B finds the limiter full
+		var filler *vtCaller
+		if st.busy() < c.Stack.Limit {
+			filler = w.newCaller("a", 0, 0)
+			w.start(filler)
+			synctest.Wait()
+			if !filler.Done || !filler.OK {
+				w.unwind(2 * time.Second)
+				w.flush()
+				return kit.Viol(kind+":free-not-granted", "after the scenario the token is free (busy=%d) but a fresh caller was not admitted at once", st.busy())
+			}
+		}
 		if d := time.Duration(c.BAfterMs) * time.Millisecond; d > 0 {
 			time.Sleep(d)
 			synctest.Wait()
@@ -101,11 +128,15 @@ func runC13W(t *testing.T, c c13wCase) kit.Outcome {
 		synctest.Wait()
 		time.Sleep(100 * time.Millisecond)
 		synctest.Wait()
-		snap := w.snapshot()
-		sa, sb := snap[1], snap[2]
+		w.mu.Lock()
+		sa, sb := *a, *b
+		w.mu.Unlock()
 		var viol *kit.Outcome
 		switch {
-		case !sa.Done || sa.OK || sa.RetAt != sa.Arrived:
+		case c.Release && (!sa.Done || sa.RetAt != sa.Arrived):
+			o := kit.Viol(kind+":cancel-in-window", "caller A (cancelled at the instant of its call while the holder released) should be answered at once; got done=%v ok=%v at +%v; points %v", sa.Done, sa.OK, sa.RetAt, sc.Trace)
+			viol = &o
+		case !c.Release && (!sa.Done || sa.OK || sa.RetAt != sa.Arrived):
 			o := kit.Viol(kind+":cancel-in-window", "caller A (context cancelled at the instant of its call, limiter full) should return refused at once; got done=%v ok=%v at +%v (arrived +%v); points %v", sa.Done, sa.OK, sa.RetAt, sa.Arrived, sc.Trace)
 			viol = &o
 		case !sb.Done:
@@ -119,6 +150,10 @@ func runC13W(t *testing.T, c c13wCase) kit.Outcome {
 			viol = &o
 		}
 		w.release(holder, 1)
+		if filler != nil {
+			w.release(filler, 1)
+		}
+		w.release(a, 1)
 		msg := w.unwind(2 * time.Second)
 		w.flush()
 		if viol != nil {
